@@ -83,6 +83,9 @@ type Chan struct {
 	cap    int
 	closed bool
 	id     int
+
+	taken       int // tier B: number of values received so far
+	recvWaiting int // tier B: goroutines waiting to receive (rendezvous of unbuffered channels)
 }
 
 type intKind struct {
